@@ -81,10 +81,13 @@ From V.Gen Require Surface.
 
 (* the director REGENERATED from pkg/upstream/http.go on this run still has the shape the oracles rely
    on - the library's director first, then the outgoing URL made opaque and set to the request target
-   as received (or as rewritePath left it), query fields cleared - and newReverseProxy installs it once *)
+   as received (or as rewritePath left it), query fields cleared - and newReverseProxy installs it once, as does
+   newWebSocketReverseProxy (upgrade requests take the second proxy: F23), both replacing the Host header under
+   the same pass-host-header guard *)
 Theorem c17_director_shape :
-  Surface.director_passes_request_uri = true /\ Surface.director_installations = 1%nat.
-Proof. split; vm_compute; reflexivity. Qed.
+  Surface.director_passes_request_uri = true /\ Surface.director_installations = 1%nat /\
+  Surface.ws_director_installations = 1%nat /\ Surface.host_header_guards = 2%nat.
+Proof. repeat split; vm_compute; reflexivity. Qed.
 Print Assumptions c17_director_shape.
 
 (* ---- the comparator the theorems are about is the one in the source ---- *)
